@@ -24,6 +24,7 @@ def run(ctx):
                                                 {'name': 'reconverge', 'params': {'w': 3}},
                                                 {'name': 'two_mems', 'params': {'aw': 2}},
                                                 {'name': 'two_mems', 'params': {'aw': 1}},
+                                                {'name': 'near_tie', 'params': {'w': 1}},
                                                 {'name': 'mem_loops', 'params': {'nports': 1}},
                                                 {'name': 'mem_loops', 'params': {'nports': 2}},
                                                 {'name': 'mem_loops', 'params': {'nports': 3}}]
